@@ -26,6 +26,8 @@ var c08Steps = []hv.Step{
 	{Op: "Mut", K: "X-B", V: "9"}, // the value slice of a header edited in place
 	{Op: "KSet", K: "X-K", V: "3"}, // a header set through the map the handler obtained before anything was written
 	{Op: "Copy", N: 5},              // body bytes streamed with io.Copy
+	{Op: "WH", N: 200},              // an explicit 200 commits status and headers like any other explicit status
+	{Op: "Flush"},                   // flushes through whatever the writer offers (http.Flusher or a ResponseController)
 }
 
 // headTrialRecovered: the GET handler program panics somewhere and a recovery option answers; HEAD must still
@@ -84,26 +86,77 @@ func headerString(h http.Header, skip string) string {
 
 // headTrial runs one handler program under GET and HEAD.
 func headTrial(prog []hv.Step) (class, obs, exp string, outcome string) {
-	if class, obs, exp, outcome = headTrialOn(prog, false); class != "" {
+	if class, obs, exp, outcome = headTrialOn(prog, ""); class != "" {
 		return
 	}
-	c2, o2, e2, _ := headTrialOn(prog, true)
-	if c2 != "" {
-		return c2 + ":via-group", o2, e2, outcome
+	for _, mode := range []string{"via-group", "mounted"} {
+		if c2, o2, e2, _ := headTrialOn(prog, mode); c2 != "" {
+			return c2 + ":" + mode, o2, e2, outcome
+		}
+	}
+	for _, s := range prog {
+		if s.Op == "Flush" {
+			if c2, o2, e2 := headTrialFlusher(prog); c2 != "" {
+				return c2 + ":flusher", o2, e2, outcome
+			}
+			break
+		}
 	}
 	return
 }
 
+// headTrialFlusher: the program under HEAD on a server writer that offers http.Flusher. What a flush does to a GET
+// response is not among the write patterns the property compares, so GET is not consulted here; what the property
+// says about HEAD alone still holds: no fault, no body, and - the handler not having sent the header itself -
+// Content-Length equal to the bytes it wrote.
+func headTrialFlusher(prog []hv.Step) (class, obs, exp string) {
+	r := NewRouter(RouterCfg{})
+	r.Handle("/r", hv.Route("hp", prog...), nil, "GET")
+	h := hv.Serve(r, hv.Req{Method: "HEAD", Path: "/r", Flusher: true})
+	if h.Paniced {
+		return "panic", fmt.Sprintf("HEAD panic=%v", h.Panic), "no panic"
+	}
+	if len(h.Body) != 0 {
+		return "head-body-leaks", fmt.Sprintf("HEAD delivered %d body bytes", len(h.Body)), "0 body bytes"
+	}
+	explicit, total, writes := false, 0, 0
+	for _, s := range prog {
+		if s.Op == "WH" && s.N >= 200 {
+			explicit = true
+		}
+		if s.Op == "W" || s.Op == "Copy" {
+			total += s.N
+			writes++
+		}
+	}
+	if !explicit && writes > 0 {
+		if cl := h.Header.Get("Content-Length"); cl != strconv.Itoa(total) {
+			return "content-length-wrong", "HEAD Content-Length=" + cl + " (as sent)", "Content-Length=" + strconv.Itoa(total) + " (bytes the handler wrote)"
+		}
+	}
+	return "", "", ""
+}
+
 // headTrialOn runs the program under GET and HEAD, on the router itself or through a Group that dispatches to it.
 // An unrelated HEAD request whose handler writes a body is served first: nothing of it may be left behind.
-func headTrialOn(prog []hv.Step, viaGroup bool) (class, obs, exp string, outcome string) {
+func headTrialOn(prog []hv.Step, mode string) (class, obs, exp string, outcome string) {
 	var r *Router
 	var srv http.Handler
-	if viaGroup {
+	switch mode {
+	case "via-group":
 		grp := newGroup()
 		r = grp.New("r", nil)
 		srv = grp
-	} else {
+	case "mounted":
+		// the GET handler of the outer route is itself a router (a router is an http.Handler): the inner router wraps
+		// the writer of a HEAD request a second time
+		outer := NewRouter(RouterCfg{Name: "outer"})
+		outer.Handle("/r", hv.Route("mount", hv.Step{Op: "Mount"}), nil, "GET")
+		r = NewRouter(RouterCfg{})
+		hv.Mounted = r
+		defer func() { hv.Mounted = nil }()
+		srv = outer
+	default:
 		r = NewRouter(RouterCfg{})
 		srv = r
 	}
